@@ -65,6 +65,7 @@ def payloads(cdir):
     return ["__import__('os').system('touch %s/pwn')" % cdir, "CANARY.append(1)", "\"+str(CANARY.append(2))+\"", "'+str(CANARY.append(3))+'",
             "\\\"); CANARY.append(4); (\\\"", "\"); CANARY.append(5); (\"", "')]); CANARY.append(6); ([('", "\nCANARY.append(7)\n", "{CANARY.append(9)}", "%s%(CANARY)s",
             "\\N{BULLET}", "\\x41", "\\", "exec", "eval", "__class__", "__builtins__", "open('%s/f','w')" % cdir, "lambda: CANARY.append(10)", "CANARY", "id", "NOT_FOUND", "_c",
+            "Cuba", "Zulu", "EST5EDT", "W-SU", "Japan", "posix/Cuba", "../UTC",
             "_get_path", "_grid.append({})", "_entity.clear()", "a'] or CANARY.append(11) or ['", "x\"\"\"+CANARY.append(12)+\"\"\"", "1);CANARY.append(13);(", "`", "$", "'", '"']
 
 
